@@ -354,10 +354,6 @@ class Plucker(SMUserList):
         else:
             return self.data
 
-    def __getitem__(self, i):
-        # print('getitem', i, 'class', self.__class__)
-        return self.__class__(self.data[i])
-    
     @property
     def v(self):
         """
